@@ -59,8 +59,32 @@ def vm (args : List String) : String :=
       else "none"
   | _ => "bad-args"
 
+/-- `tp.wait <k> <p1> … <pk> <h>,<m> …` → `none` (a pattern is rejected), `never`, or the number
+of ticks `wait_until` waits for with the union of the k patterns and these readings -/
+def wait (args : List String) : String :=
+  match args with
+  | k :: rest =>
+    match k.toNat? with
+    | none => "bad-args"
+    | some k =>
+      let pats := (rest.take k).map (fun a => fromString (decode a))
+      let rds := (rest.drop k).map fun r =>
+        match r.splitOn "," with
+        | [h, m] => (h.toNat?.getD 99, m.toNat?.getD 99)
+        | _ => (99, 99)
+      match pats with
+      | some p :: more =>
+        if more.all Option.isSome then
+          match waitUntil (more.foldl (fun acc q => acc.union (q.getD ⟨[]⟩)) p) rds with
+          | some i => toString i
+          | none => "never"
+        else "none"
+      | _ => "none"
+  | _ => "bad-args"
+
 def handle (cmd : String) (args : List String) : Option String :=
   match cmd with
+  | "tp.wait" => some (wait args)
   | "tp.from" => some (from_ args)
   | "tp.or" => some (or_ args)
   | "tp.vm" => some (vm args)
